@@ -899,6 +899,13 @@ func checkC20(c *Ctx) {
 					b = binRace
 				}
 				results[i] = runC20Scenario(c, b, scenarios[i], i)
+				// the port is chosen by binding and releasing it: another process on the
+				// machine can take it in between ("address already in use" ends the master at
+				// start-up). That says nothing about Zn: try again with another port
+				for try := 0; try < 3 && strings.HasPrefix(results[i].err, "master ended during start-up") && strings.Contains(results[i].err, "in use"); try++ {
+					c.Count("scenarios_rerun_port_taken", 1)
+					results[i] = runC20Scenario(c, b, scenarios[i], i+2000+1000*try)
+				}
 				// the delay injector is a tracer: when strace itself fails (ptrace error under
 				// load) it takes the traced master down with it - that is the tool, not Zn.
 				// The scenario is run once more; if the tracer fails again it is not judged
